@@ -182,7 +182,7 @@ func (r *framesRule) OnInstr(e *Engine, st *State, fc *FrameCtx, in ssa.Instruct
 	}
 	c := ci.Common()
 	if _, isGo := in.(*ssa.Go); isGo {
-		if fc.fn == r.R.PublishFn {
+		if lb := st.BlockOf(r.R.LoopFn); !fc.InGoroutine() && lb != nil && r.loops.body[r.header][lb] {
 			r.spawnSites[in.Pos()] = true
 			if s.W != 1 {
 				e.Report(st, in.Pos(), "PublishContext/async-go/count-before-spawn", "the go statement is reached with %d pending Add(1) on the bus wait group (want exactly 1, in the publisher, before the goroutine starts)", s.W)
@@ -300,7 +300,7 @@ func (r *framesRule) OnInstr(e *Engine, st *State, fc *FrameCtx, in ssa.Instruct
 		return false
 	}
 	// publish hooks
-	if fld, cc, ok := r.ev.hookCall(in); ok && fc.fn == r.R.PublishFn {
+	if fld, cc, ok := r.ev.hookCall(in); ok && !fc.InGoroutine() && s.X != 'y' {
 		r.hookSites[in.Pos()] = true
 		i := r.hookIdx[fld]
 		s.B[i]++
@@ -315,7 +315,7 @@ func (r *framesRule) OnInstr(e *Engine, st *State, fc *FrameCtx, in ssa.Instruct
 		return false
 	}
 	// persist function
-	if sc := c.StaticCallee(); sc != nil && (sc == r.R.PersistFn || sc.Origin() == r.R.PersistFn) && fc.fn == r.R.PublishFn {
+	if sc := c.StaticCallee(); sc != nil && (sc == r.R.PersistFn || sc.Origin() == r.R.PersistFn) && !fc.InGoroutine() && s.X != 'y' {
 		r.persistSites[in.Pos()] = true
 		s.Pe++
 		if s.Ph != 'a' {
@@ -556,7 +556,7 @@ func (r *framesRule) OnBranch(e *Engine, st *State, fc *FrameCtx, in *ssa.If, ta
 }
 
 func (r *framesRule) OnEdge(e *Engine, st *State, fc *FrameCtx, from, to *ssa.BasicBlock) {
-	if fc.fn != r.R.PublishFn || fc.parent != nil {
+	if fc.fn != r.R.LoopFn || fc.InGoroutine() {
 		return
 	}
 	body := r.loops.body[r.header]
@@ -667,7 +667,7 @@ func runFrames(c *Ctx, p *Prog, R *BusRoles, want map[string]string) {
 	r.eventCanon = "param:" + fnm + "." + R.PublishFn.Params[2].Name()
 	cn := R.PublishFn.Params[1].Name()
 	r.ctxCanons = append([]string{"param:" + fnm + "." + cn, "cell:" + fnm + "." + cn + "@"}, publishCtxPhiCanons(R.PublishFn)...)
-	r.loops = loopsOf(R.PublishFn)
+	r.loops = loopsOf(R.LoopFn)
 	r.header = dispatchLoopHeader(R)
 	if r.header == nil {
 		c.Unresolved("FRAMES", "UNRESOLVED-ANCHOR/dispatch-loop", "no loop in PublishContext contains a dispatch")
@@ -723,7 +723,7 @@ func runFrames(c *Ctx, p *Prog, R *BusRoles, want map[string]string) {
 }
 
 func dispatchLoopHeader(R *BusRoles) *ssa.BasicBlock {
-	return loopContaining(R.PublishFn, func(in ssa.Instruction) bool {
+	return loopContaining(R.LoopFn, func(in ssa.Instruction) bool {
 		switch in := in.(type) {
 		case *ssa.Go:
 			return true
